@@ -357,6 +357,9 @@ func (vc *VC) rangeFact(term string, l Leaf, h Heap) string {
 			return "(and (<= " + lo + " " + term + ") (<= " + term + " " + hi + "))"
 		}
 	case SPtr:
+		// (nil tests on pointers compare the object number with 0 - see binop - so no "the nil pointer is
+		// canonical" fact is needed here; as a disjunction on every pointer value it made
+		// Round.AddNotarizedBlock/post[one-per-rank] go from 7 s to a timeout)
 		f := "(and (<= 0 (p_obj " + term + ")) (<= (p_obj " + term + ") " + h.Alloc + "))"
 		if pt, ok := l.T.Underlying().(*types.Pointer); ok {
 			if id, base := vc.baseType(pt.Elem()); base {
